@@ -766,6 +766,11 @@ impl Callbacks for Cb {
                         o.push(("trait", s(pretty(tcx, tr.def_id))));
                         o.push(("trait_ref", s(with_no_trimmed_paths!(format!("{}", tr)))));
                         o.push(("derived", J::Bool(tcx.is_automatically_derived(def_id))));
+                        // a crate-local trait that cannot be named from outside has a closed set of impls
+                        if let Some(tl) = tr.def_id.as_local() {
+                            o.push(("trait_local", J::Bool(true)));
+                            o.push(("trait_reachable", J::Bool(tcx.effective_visibilities(()).is_reachable(tl))));
+                        }
                         let safety = tcx.impl_trait_header(def_id).safety;
                         if !safety.is_safe() && !tcx.def_span(def_id).from_expansion() {
                             unsafe_items.push(J::Obj(vec![
